@@ -115,6 +115,13 @@ def gen_anchors():
     # the repair: the reset is guarded by "outside of any selection set"
     case_body = body[m.end():body.index("default:", m.end())]
     guarded = bool(re.search(r"if localDepth <= 0 \{[^}]*globalDepth \+= localDepthPeak", case_body, re.S)) and "fallthrough" in case_body
+    # the second repair: a brace at the start / after a closing brace, outside parentheses, starts a shorthand operation
+    lb = re.search(r"case keyword\.LBRACE:(.*?)case keyword\.RBRACE:", body, re.S)
+    shorthand = bool(lb and re.search(
+        r"if localDepth <= 0 && parenDepth <= 0 && \(prev == keyword\.UNDEFINED \|\| prev == keyword\.RBRACE\) \{\s*(?://[^\n]*\n\s*)*"
+        r"globalDepth \+= localDepthPeak\s*localDepth = 0\s*localDepthPeak = 0\s*\}\s*globalDepth\+\+", lb.group(1), re.S)) \
+        and bool(re.search(r"case keyword\.LPAREN:\s*parenDepth\+\+\s*case keyword\.RPAREN:\s*parenDepth--", body)) \
+        and bool(re.search(r"if next\.Keyword != keyword\.COMMENT \{\s*prev = next\.Keyword\s*\}", body))
     special = ["HASHTAG", "QUOTE", "DOT", "BACKSLASH", "LINETERMINATOR", "CARRIAGERETURN", "SPACE", "TAB",
                "EXPONENT_LOWER", "EXPONENT_UPPER", "SUB", "ADD"]
     txt = "(* GENERATED by tools/props/c05.py from /repo -- do not edit *)\n"
@@ -131,6 +138,7 @@ def gen_anchors():
         "(%s, %s)" % (coq_bytes(lit), coq_bytes(name.encode())) for lit, name in ik)
     txt += "Definition anchor_limit_def_keywords : list bytes := %s.\n" % coq_list(coq_bytes(n.encode()) for n in defkw)
     txt += "Definition anchor_limit_reset_guarded : bool := %s.\n" % ("true" if guarded else "false")
+    txt += "Definition anchor_limit_shorthand_period : bool := %s.\n" % ("true" if shorthand else "false")
     return write_if_changed(os.path.join(vlib.COQ, "gen", "Anchors_C05.v"), txt)
 
 
@@ -174,6 +182,10 @@ def run(chk, only_corpus=False):
         "harness/gqldump (index-based ast.Document -> tree S-expression) and harness/cmd/c05 (generators, observables)",
         "modelled by hand and tied by correspondence: lexer.go Read, tokenizer.go Tokenize/TokenizeWithLimits/Read/Peek, "
         "parser.go for executable documents, astprinter.go + ast.PrintValue/PrintType/PrintArgument for executable documents",
+        "limits are read cumulatively, as the tokenizer's comments and tests do: MaxDepth bounds the SUM over all "
+        "definitions of their selection depth (brace nesting of selection sets incl. inline fragments), which bounds the depth "
+        "of every operation with named fragments spread (depth_inlined_le_sum; a fragment is expanded at most once per path, "
+        "cycles cut); MaxFields bounds the number of field nodes of the whole document; both computed on the dumped tree",
         "uint32 token offsets: theorems assume an input shorter than 2^32 bytes; line/column counters and Go ints are "
         "modelled unbounded",
         "the parser model stops at the first error; the Go control flow between the first recorded error and the return "
